@@ -30,7 +30,16 @@ def run_one(m):
         dst = os.path.join(tmp, "repo")
         subprocess.check_call(["rsync", "-a", "--exclude", ".git", "--exclude", "docs", "--exclude", "_examples",
                                "--exclude", "tools", REPO + "/", dst + "/"])
-        edits = m.get("edits") or [{"file": m["file"], "find": m["find"], "replace": m["replace"]}]
+        if m.get("revert_commit"):
+            diff = subprocess.run(["git", "-C", REPO, "show", "--format=", m["revert_commit"]], capture_output=True, text=True).stdout
+            pr = subprocess.run(["patch", "-R", "-p1", "-s"], cwd=dst, input=diff, capture_output=True, text=True)
+            if pr.returncode != 0:
+                res["status"] = "SKIP-ANCHOR"
+                res["detail"] = "cannot revert %s: %s" % (m["revert_commit"], pr.stdout[-200:])
+                return res
+            edits = []
+        else:
+            edits = m.get("edits") or [{"file": m["file"], "find": m["find"], "replace": m["replace"]}]
         for e in edits:
             p = os.path.join(dst, e["file"])
             s = open(p).read()
